@@ -23,7 +23,7 @@ BUDGET = {"quick": 75, "thorough": 1200}
 RUN_TIMEOUT = 150
 SELFTEST_PAIRS = {"quick": 10, "thorough": 30}
 PROBES = ["two_tasks_in_charmap_section", "exception_inside_section", "failing_input_in_history",
-          "lock_contended", "sequential_history", "aes_pdf_in_workload", "mixed_formats", "archive_7z_in_workload", "systematic_switch_in_section"]
+          "lock_contended", "sequential_history", "aes_pdf_in_workload", "mixed_formats", "archive_7z_in_workload", "systematic_switch_in_section", "cold_history"]
 RULE = ("one run = k real threads x 1-3 real extractions (or one sequential history of 2-10) under a seeded pre-emptive schedule; "
         "distinct non-trivial = distinct projection of the event log onto (task, line) events inside the char-map patch section plus "
         "context-switch positions, counted only when >= 2 tasks overlapped inside the section or the history mixes >= 2 documents")
@@ -184,7 +184,14 @@ def warm():
 
 # ------------------------------------------------------------------------------------------------ generation
 def gen_case(rng: random.Random, tier: str) -> dict:
-    mode = rng.choices(["threads", "sequential", "section_enum"], [4, 1, 2])[0]
+    mode = rng.choices(["threads", "sequential", "section_enum", "cold"], [4, 1, 2, 0.6])[0]
+    if mode == "cold":
+        # a fresh interpreter with lazy imports: [A..., B] against [B] alone (import-time and first-use side effects are history too)
+        small = [n for n in _pool if len(_docs[n]) < 300_000 and not n.startswith("var/aes")] + [n for n in ("gen/server.log", "gen/settings.ini", "gen/deep.html",
+                 "gen/a.txt", "gen/a.csv", "gen/a.md") if n in _docs]
+        hist = [rng.choice(small) for _ in range(rng.choice([1, 2, 3]))]
+        return {"mode": "cold", "tasks": [hist + [rng.choice(small)]], "sched_seed": 0, "p_call": 0.0, "p_line": 0.0, "line_granularity": False,
+                "inject": None, "schedule": None}
     plain = [n for n in _pdfs if not n.startswith("var/aes")]
 
     def pick():
@@ -304,7 +311,46 @@ def _env_state():
 
 
 # ------------------------------------------------------------------------------------------------ execution
+def _cold(docs):
+    import subprocess
+    spec = {"verif": K.VERIF, "docs": [{"name": n, "route": os.path.basename(n), "b64": K.b64e(_docs[n])} for n in docs]}
+    env = dict(os.environ)
+    env["PYTHONPATH"] = K.REPO + os.pathsep + K.VERIF
+    p = subprocess.run([sys.executable, os.path.join(K.VERIF, "simkit", "coldworker.py")], input=__import__("json").dumps(spec), capture_output=True, text=True,
+                       env=env, cwd="/", timeout=300)
+    if p.returncode != 0:
+        raise RuntimeError("coldworker failed: " + p.stderr[-1200:])
+    return __import__("json").loads(p.stdout)
+
+
+def _run_cold(case):
+    log = K.EventLog()
+    log.ev("case", K.h64(K.jdump(case)))
+    docs = case["tasks"][0]
+    target = docs[-1]
+    alone = _cold([target])
+    hist = _cold(docs)
+    viol = []
+    a, h = alone["docs"][-1], hist["docs"][-1]
+    log.ev("cold", docs, a["digest"], h["digest"])
+    if a["digest"] != h["digest"]:
+        viol.append({"class": "result_differs_from_isolated", "sig": f"{os.path.basename(target)}|cold_history",
+                     "detail": f"fresh interpreter: {target} alone -> {a['digest']}; after {docs[:-1]} -> {h['digest']}"})
+    # interpreter-global settings: whatever the history changed must also be what the document alone changes (nothing, ideally)
+    for k in hist["env0"]:
+        before, after = hist["env0"][k], hist["docs"][-1]["env"][k]
+        if before != after:
+            viol.append({"class": "global_state_residue", "sig": f"interpreter_setting:{k}",
+                         "detail": f"fresh interpreter extracting {docs}: {k} changed {before!r} -> {after!r}"})
+    probes = {"cold_history": 1}
+    return {"violations": viol, "digest": log.digest(), "steps": log.n, "evals": 2, "faults": {}, "probes": probes,
+            "nontrivial": [f"cold|{hashlib.sha1(repr(docs).encode()).hexdigest()[:8]}"] if len(set(docs)) > 1 else [], "states": [log.digest()[:8]],
+            "summary": {"mode": "cold", "docs": docs}}
+
+
 def run_case(case: dict) -> dict:
+    if case["mode"] == "cold":
+        return _run_cold(case)
     log = K.EventLog()
     log.ev("case", K.h64(K.jdump({k: v for k, v in case.items() if k != "schedule"})))
     viol, probes, nontriv = [], {}, set()
@@ -469,6 +515,11 @@ def run_case(case: dict) -> dict:
 
 # ------------------------------------------------------------------------------------------------ shrinking
 def shrink(case):
+    if case["mode"] == "cold":
+        h = case["tasks"][0]
+        for i in range(len(h) - 1):
+            yield dict(case, tasks=[h[:i] + h[i + 1:]])
+        return
     tasks = case["tasks"]
     sch = case.get("schedule")
     # fewer tasks / fewer documents (schedule becomes invalid -> regenerate from the seed)
